@@ -266,6 +266,37 @@ func Run(c *hx.Ctx) {
 			evs, hs, ds := w.drain()
 			c.Emit("p2p events=%s", evs)
 			w.checkAdmission(hs, ds)
+		case "p2plib":
+			// what go-header does with a header received over gossip (p2p/subscriber.go) or in an exchange session
+			// (p2p/session.go) before it is stored: New + UnmarshalBinary + Validate through the library's generic
+			// header interface, then the library's header.Verify against the trusted header
+			b := o.Bytes("blob")
+			var trusted *types.SignedHeader
+			if t := o.Str("trusted"); t != "" && t != "-" {
+				trusted = new(types.SignedHeader)
+				if err := trusted.UnmarshalBinary(o.Bytes("trusted")); err != nil {
+					c.Emit("bad-trusted")
+					continue
+				}
+			}
+			w.note(b)
+			if trusted != nil {
+				w.note(o.Bytes("trusted"))
+			}
+			var hdr *types.SignedHeader
+			verdict := "panic"
+			func() {
+				defer func() {
+					if r := recover(); r != nil {
+						c.Report("C03/panic/p2p-library-entry", fmt.Sprint(r))
+					}
+				}()
+				hdr, verdict = libAdmit[*types.SignedHeader](trusted, trusted != nil, b)
+			}()
+			c.Emit("p2plib %s", verdict)
+			if verdict == "accepted" && hdr != nil {
+				w.checkStored(hdr)
+			}
 		case "place":
 			da, _ := o.U64("da")
 			b := o.Bytes("blob")
@@ -382,6 +413,56 @@ func Run(c *hx.Ctx) {
 		default:
 			c.Emit("bad-op")
 		}
+	}
+}
+
+// libAdmit is go-header's treatment of a received header, generic over the header type exactly as the library is:
+// Validate() is resolved through the constraint header.Header[H] (for *types.SignedHeader: its own method if it has
+// one, else the one promoted from the embedded unsigned Header).
+func libAdmit[H goheader.Header[H]](trusted H, hasTrusted bool, data []byte) (H, string) {
+	hdr := goheader.New[H]()
+	if err := hdr.UnmarshalBinary(data); err != nil {
+		return hdr, "rejected:decode"
+	}
+	if err := hdr.Validate(); err != nil {
+		return hdr, "rejected:validate"
+	}
+	if hasTrusted {
+		if err := goheader.Verify(trusted, hdr); err != nil {
+			return hdr, "rejected:verify"
+		}
+	}
+	return hdr, "accepted"
+}
+
+// checkStored (C03): a header the P2P library entry accepts, and that names the genesis proposer, must be signed with
+// the proposer's key (harness's own key comparison + the real ed25519 verification; the code under test is not asked).
+func (w *World) checkStored(sh *types.SignedHeader) {
+	if string(sh.ProposerAddress) != string(w.env.Gen.ProposerAddress) {
+		return // a header of another chain/proposer: nothing ties it to this genesis (no trusted header was given)
+	}
+	pub := w.env.Pub
+	kind := ""
+	switch {
+	case sh.Signer.PubKey == nil:
+		kind = "key-absent"
+		if len(sh.Signature) == 0 {
+			kind = "unsigned"
+		}
+	case !sh.Signer.PubKey.Equals(pub):
+		kind = "foreign-key"
+	case len(sh.Signature) == 0:
+		kind = "unsigned"
+	case bm.SigClass(pub, &sh.Header, sh.Signature) != "valid":
+		kind = "garbage-signature"
+		if !w.genuine[strings.ToLower(sh.Hash().String())] {
+			kind = "mutated"
+		}
+	}
+	// (a header carrying the proposer's key and a valid signature but a wrong signer-address FIELD is signed by the
+	// proposer: the repaired code rejects it, the property does not demand that)
+	if kind != "" {
+		w.c.Report("C03/p2p-store/accepted-without-proposer-signature/"+kind, fmt.Sprintf("height %d hash %s", sh.Height(), short(sh.Hash())))
 	}
 }
 
